@@ -87,8 +87,14 @@ func execute(c Case, w *vkit.W, st *state) {
 	}
 	st.mu.Lock()
 	defer st.mu.Unlock()
+	local := bits{andHi: ^uint64(0), andLo: ^uint64(0)} // the same bit statistics, for this configuration alone
 	for g, ids := range results {
 		for i, id := range ids {
+			local.orHi |= id.Higher
+			local.orLo |= id.Lower
+			local.andHi &= id.Higher
+			local.andLo &= id.Lower
+			local.n++
 			if id.Version() != 4 || id.Higher>>12&0xf != 4 {
 				w.Fail(c, "version", fmt.Sprintf("goroutine %d draw %d: %s has version %d (accessor %d)", g, i, id, id.Higher>>12&0xf, id.Version()))
 			}
@@ -104,6 +110,13 @@ func execute(c Case, w *vkit.W, st *state) {
 			st.b.andHi &= id.Higher
 			st.b.andLo &= id.Lower
 			st.b.n++
+		}
+	}
+	// "each of the remaining 122 bits taking both values across draws" holds under every configuration, not only over the sum of
+	// all of them: with 512 or more draws a free bit that kept one value is no accident (chance below 2^-500 per bit).
+	if local.n >= 512 {
+		if never1, never0 := local.stuckBits(); len(never1)+len(never0) > 0 {
+			w.Fail(c, "stuck-bit-in-configuration", fmt.Sprintf("%d draws under GOMAXPROCS %d from %d goroutines: never 1: %v; never 0: %v", local.n, c.Procs, c.Goroutines, never1, never0))
 		}
 	}
 }
